@@ -19,7 +19,7 @@ from . import common, tlc, history, validate
 EXPECT = {            # mutant file prefix -> checks that must report it
     'M01': ['C01'], 'M02': ['C02'], 'M03': ['C01'], 'M04': ['C05'], 'M05': ['C05'], 'M06': ['C06'], 'M07': ['C13'],
     'M08': ['C09'], 'M09': ['C15'], 'M10': ['C16'], 'M11': ['C14'], 'M12': ['C15'], 'M13': ['C11'], 'M14': ['C11'],
-    'M15': ['C08'], 'M16': ['C08'], 'M17': ['C08'], 'M18': ['C05'],
+    'M15': ['C08'], 'M16': ['C08'], 'M17': ['C08'], 'M18': ['C05'], 'M19': ['C03'],
 }
 
 
